@@ -109,6 +109,23 @@ def check_roundtrip(ctx, recipes, order, indent, pieces):
     for k, i in enumerate(order):
         text += sers[i] + pieces[k + 1]
     ctx.count("oracle.roundtrip")
+    if any(PLACEHOLDER in p for p in pieces):
+        # differential: the placeholder sits among serialised scripts; the result must be what the same text without the
+        # scripts gives when the recovered dependencies are supplied directly
+        try:
+            # (the recovered dependencies carry their head as one HTML() string, so they - not the originals - are supplied)
+            uniq = ht.HTMLTextDocument(text, deps_replace_pattern="@@no-such-placeholder@@").render()["dependencies"]
+            a = ht.HTMLTextDocument(text, deps_replace_pattern=PLACEHOLDER).render()["html"]
+            b = ht.HTMLTextDocument("".join(pieces), deps=uniq, deps_replace_pattern=PLACEHOLDER).render()["html"]
+        except Exception as e:
+            ctx.violation("extraction-raises", "HTMLTextDocument raised %r" % e, wit)
+            return False
+        ctx.count("oracle.placeholder_among_scripts")
+        if a != b:
+            ctx.violation("placeholder-misplaced", "placeholder among serialised scripts: result differs from supplying the dependencies directly",
+                          dict(wit, got=a[:700], want=b[:700]))
+            return False
+        return True
     try:
         doc = ht.HTMLTextDocument(text, deps_replace_pattern=PLACEHOLDER)
         out = doc.render()
@@ -288,6 +305,11 @@ def run(ctx):
         if rng.random() < 0.3:
             pieces[rng.randrange(len(pieces))] = ""
         indent = rng.choice([None, None, 0, 1, 2, 4, 8])
+        if rng.random() < 0.25:
+            k_ = rng.randrange(len(pieces))
+            pieces[k_] = pieces[k_] + PLACEHOLDER + ("<b>after</b>" if rng.random() < 0.5 else "")
+            if rng.random() < 0.3:
+                pieces[rng.randrange(len(pieces))] += PLACEHOLDER  # later occurrences stay as they are
         r = rng.random()
         if r < 0.2:
             # the same dependency several times, serialised with different indents
